@@ -137,3 +137,22 @@ def events_calling(engine, callee_pred):
 
 def contains_term(t, pred):
     return any(pred(x) for x in walk(t))
+
+
+import re as _re
+_GEN = _re.compile(r"::<[^<>]*(?:<[^<>]*>[^<>]*)*>")
+_LT = _re.compile(r"<'[a-z_]+>")
+
+
+def strip_generics(name):
+    """`compass_point::MainWindMap::<V>::get` -> `compass_point::MainWindMap::get` (so that a rule
+    does not depend on the spelling of a type parameter)"""
+    if not name: return name
+    prev = None
+    while prev != name:
+        prev = name; name = _GEN.sub("", name); name = _LT.sub("", name)
+    return name
+
+
+def is_fn(name, plain):
+    return strip_generics(name) == plain
